@@ -226,15 +226,14 @@ def _pending(cx, add):
     if len(tr) == 1 and isinstance(tr[0], ast.DictComp):
         g = tr[0].generators[0]
         ok = norm(g.iter) == "self.syntax_map.items()" and len(g.ifs) == 1 and norm(g.ifs[0]).endswith(".color_fmt is None")
-    cx.ob("R14d", add, ok, "the work list is every pending item of the whole map (not only the new ones)" if ok else
-          "the work list of unresolved items is not built from all items of syntax_map with color_fmt is None", stmt="to_resolve")
+    cx.shape_ob("R14d", add, ok, "the work list is every pending item of the whole map (not only the new ones)", "the work list of unresolved items is not built from all items of syntax_map with color_fmt is None", add, stmt="to_resolve")
     rc = [c for c in walk_local(add) if isinstance(c, ast.Call) and call_name(c) == "resolve"]
     cx.need(len(rc) == 1, "R14d", add, "one resolve call expected in add_new_items")
     c = rc[0]
     loops = enclosing_loops(c)
     inner = loops[0] if loops else None
     ok = isinstance(inner, ast.For) and isinstance(inner.iter, ast.Call) and call_name(inner.iter) == "reversed" and is_name(inner.iter.args[0], "path")
-    cx.ob("R14d", c, ok, "a chain is resolved from the resolved ancestor outwards (reversed path)" if ok else "chain is not resolved over reversed(path)")
+    cx.shape_ob("R14d", c, ok, "a chain is resolved from the resolved ancestor outwards (reversed path)", "chain is not resolved over reversed(path)", add)
     a0 = norm(c.args[0]) if c.args else "?"
     thr = False
     if isinstance(inner, ast.For):
@@ -244,7 +243,7 @@ def _pending(cx, add):
         thr = idx is not None and any(isinstance(s, ast.Assign) and norm(s.targets[0]) == a0 and norm(s.value) == recv for s in body[idx + 1:])
         fetched = any(isinstance(s, ast.Assign) and norm(s.targets[0]) == recv and norm(s.value) == f"self.syntax_map[{norm(inner.target)}]" for s in body[:idx or 0])
         thr = thr and fetched
-    cx.ob("R14d", c, thr, "each resolved item becomes the parent of the next one in the chain" if thr else "the parent is not threaded along the chain", stmt=norm(c) + " [threading]")
+    cx.shape_ob("R14d", c, thr, "each resolved item becomes the parent of the next one in the chain", "the parent is not threaded along the chain", add, stmt=norm(c) + " [threading]")
     ok = len(c.args) == 2 and norm(c.args[1]) == "self.no_color"
     cx.ob("R14f", c, ok, "chains are resolved with the configuration's no_color" if ok else "resolve is not given self.no_color")
     # start of the chain: the ancestor that is already resolved
@@ -258,7 +257,7 @@ def _pending(cx, add):
             tested = norm(a.test.left)[: -len(".color_fmt")]
             g = any(isinstance(s, ast.Assign) and norm(s.targets[0]) == a0 and norm(s.value) == tested for s in a.body)
         prev = a
-    cx.ob("R14d", c, g, "resolution starts only at an ancestor that is already resolved" if g else "chain resolution is not guarded by `ancestor.color_fmt is not None`", stmt=norm(c) + " [start]")
+    cx.shape_ob("R14d", c, g, "resolution starts only at an ancestor that is already resolved", "chain resolution is not guarded by `ancestor.color_fmt is not None`", add, stmt=norm(c) + " [start]")
     # unknown parent => nothing of the chain is touched
     cu = [x for x in walk_local(add) if isinstance(x, ast.Call) and call_name(x) == "update" and norm(x.func.value) == "cant_resolve"]
     ok = len(cu) == 1 and any(isinstance(e, ast.BoolOp) or (isinstance(e, ast.Compare) and isinstance(e.ops[0], ast.NotIn) and norm(e.comparators[0]) == "self.syntax_map") for e, pol in facts(cu[0]) if pol)
@@ -267,15 +266,15 @@ def _pending(cx, add):
         blk = parent(enclosing_stmt(cu[0]))
         body = blk.body if hasattr(blk, "body") else []
         brk = any(isinstance(s, ast.Break) for s in body)
-    cx.ob("R14d", cu[0] if cu else add, ok and brk, "a chain that reaches an unknown id is left pending, untouched" if ok and brk else "chains reaching an unknown id are not abandoned without partial writes")
+    cx.shape_ob("R14d", cu[0] if cu else add, ok and brk, "a chain that reaches an unknown id is left pending, untouched", "chains reaching an unknown id are not abandoned without partial writes", add)
     # walking up: path.append(id); move to the parent's description
     up = [s for s in walk_local(add) if isinstance(s, ast.Assign) and norm(s.value).startswith("self.syntax_map[") and "parent_syntax_id" in norm(s.value)]
     ok = len(up) == 1
-    cx.ob("R14d", up[0] if up else add, ok, "the walk follows parent_syntax_id through the map" if ok else "the upward walk along parent ids is missing")
+    cx.shape_ob("R14d", up[0] if up else add, ok, "the walk follows parent_syntax_id through the map", "the upward walk along parent ids is missing", add)
     # fixpoint loop: repeats while something was resolved
     nr = [s for s in walk_local(add) if isinstance(s, ast.If) and is_name(s.test, "new_resolved")]
     ok = len(nr) == 1 and any(isinstance(x, ast.Break) for x in nr[0].orelse)
-    cx.ob("R14d", nr[0] if nr else add, ok, "rounds repeat until nothing new is resolved" if ok else "resolution rounds do not run to a fixpoint")
+    cx.shape_ob("R14d", nr[0] if nr else add, ok, "rounds repeat until nothing new is resolved", "resolution rounds do not run to a fixpoint", add)
 
 
 # -------------------------------------------------------------------------------------- R14e (= R10b, R10d)
